@@ -1,6 +1,7 @@
 import GB.Base.Proto
 import GB.C11.Model
 import GB.C11.Fine
+import GB.C11.Methods
 import GB.Generated.Facts
 /-
   C11 driver: trace validation.  One case line =
@@ -211,6 +212,9 @@ def runToPark (P : Progs) (fine : Bool) : Nat → FState → Tid → FState × P
 
 structure Cand where
   s : FState
+  /-- kind `M` (pattern router, two HTTP methods): `s` is the POST component, `g` the GET component of the
+      per-method LTS (`GB.C11.MStep`, lockstep) -/
+  g : Option FState := none
   cur : List (Nat × Tid) := []     -- harness thread → model thread of its current operation
   nops : List (Nat × Nat) := []    -- harness thread → number of operations started
 deriving Inhabited
@@ -220,9 +224,15 @@ def Cand.tid (c : Cand) (t : Nat) : Option Tid := c.cur.lookup t
 def Cand.start (P : Progs) (c : Cand) (t : Nat) (op : Op) : Option Cand :=
   let n := (c.nops.lookup t).getD 0
   let tid := t * 64 + n
-  match fstep P c.s (.spawn tid op) with
-  | none => none
-  | some s' => some { s := s', cur := (t, tid) :: c.cur.filter (·.1 ≠ t), nops := (t, n + 1) :: c.nops.filter (·.1 ≠ t) }
+  match c.g with
+  | none =>
+    match fstep P c.s (.spawn tid op) with
+    | none => none
+    | some s' => some { s := s', cur := (t, tid) :: c.cur.filter (·.1 ≠ t), nops := (t, n + 1) :: c.nops.filter (·.1 ≠ t) }
+  | some g =>
+    match mstep2 P { post := c.s, get := g } (.spawn tid op) with
+    | none => none
+    | some m => some { s := m.post, g := some m.get, cur := (t, tid) :: c.cur.filter (·.1 ≠ t), nops := (t, n + 1) :: c.nops.filter (·.1 ≠ t) }
 
 def matchEv (issued : List Issued) (p : Park) (e : Ev) : Bool :=
   match p, e with
@@ -247,7 +257,23 @@ def Cand.advance (P : Progs) (fine : Bool) (issued : List Issued) (c : Cand) (e 
   | none => .error "no-op"
   | some tid =>
     let (s', p) := runToPark P fine 160 c.s tid
-    if matchEv issued p e then .ok { c with s := s' } else .error (showPark p)
+    match c.g with
+    | none => if matchEv issued p e then .ok { c with s := s' } else .error (showPark p)
+    | some g =>
+      -- per-method LTS: both method components take the same macro step; they must park alike (the control
+      -- flow does not depend on the tables); a lookup is answered by the component of its key's method
+      let (g', p2) := runToPark P fine 160 g tid
+      let getAnswers := match g.base.threads tid with
+        | some th => (match th.op with | .lookupP k => mOf2 k == 0 | _ => false)
+        | none => false
+      let coherent := match p, p2 with
+        | .done (.hit _), .done .miss => !getAnswers
+        | .done .miss, .done (.hit _) => getAnswers
+        | a, b => a == b
+      if !coherent then .error s!"method components park differently: {showPark p} / {showPark p2}"
+      else
+        let pj := if getAnswers then p2 else p
+        if matchEv issued pj e then .ok { c with s := s', g := some g' } else .error (showPark pj)
 
 def insertAll (x : Ev) : List Ev → List (List Ev)
   | [] => [[x]]
@@ -395,7 +421,8 @@ def handleStress (mode : String) (out : List String) : String :=
 def handle : Handler
   | "stress" :: mode :: _, out => handleStress mode out
   | kind :: _, out =>
-    if kind ≠ "P" && kind ≠ "S" && kind ≠ "F" then "BAD kind" else
+    if kind ≠ "P" && kind ≠ "S" && kind ≠ "F" && kind ≠ "M" then "BAD kind" else
+    -- kind M = the pattern router with two HTTP methods (even keys: GET bindings, odd keys: default POST)
     -- kind F = the service router with the harness parking at the per-iteration yield points as well
     let svc := kind = "S" || kind = "F"
     let fine := kind = "F"
@@ -413,7 +440,7 @@ def handle : Handler
       match st.viol with
       | some why => s!"VIOL {why}"
       | none =>
-        match replay (replayProgs svc) svc fine st.issued rounds 0 [{ s := finit }] with
+        match replay (replayProgs svc) svc fine st.issued rounds 0 [{ s := finit, g := if kind = "M" then some finit else none }] with
         | some why => s!"DIFF model-rejects-trace {why}"
         | none => s!"OK{tags}"
   | _, _ => "BAD c11 line"
